@@ -7,7 +7,8 @@
 # (USB 3.2 8.7: DW0[4:0] type = 01100b, DW0[18:5] bus interval counter (14 bits), DW0[31:19] delta (13 bits)).
 #
 # Domain argument: the netlist cone of the two output registers is walked (harness/_gf2.affine_cone, wiring_only):
-# it may contain only wiring of DW0[31:5] bits and selections steered by the remaining inputs (valid, type bits).
+# it may contain only wiring of DW0[31:5] bits (possibly through pipeline registers) and selections steered by the
+# remaining inputs (valid, type bits) or by state derived from those alone.
 # A wiring-only function maps every output bit to one fixed input bit or a constant, so it is fully determined by
 # the all-zero, all-one and single-bit packets; the enumeration covers those, adjacent pairs, all 2^14 counter values
 # and all 2^13 delta values (each against both extreme values of the other field) and dense pseudo-random fields,
@@ -51,32 +52,70 @@ def junk_inputs(model, j):
     return kw
 
 
+WAIT = 16          # generous bound on the decode latency (the statement fixes none)
+TAIL = 4           # cycles watched after the strobe for a second one
+
+
 def present(cur, model, counter, delta, junk):
-    """one ITP through the HeaderQueue handshake.  Returns (list of failures, observation at the strobe)."""
+    """one ITP through the HeaderQueue handshake, from a quiescent state.  The update strobe may come in the cycle the
+    header is taken or up to WAIT cycles later; the reported values are read in the strobe cycle and, failing that,
+    in the following one (strobe-first implementations).  Exactly one strobe.  Returns (failures, observation)."""
     dw0 = ITP_TYPE | (counter << 5) | (delta << 19)
     kw = dict(valid=1, dw0=dw0, **junk_inputs(model, junk))
-    seen = None
-    accepted = False
     for _ in range(4):                      # producer holds the header until it is taken
         o = cur.step(**kw)
-        if o.ready: accepted = True; break
-    if not accepted:
+        if o.ready: break
+    else:
         return [("itp:not-accepted", dict(dw0=hex(dw0), note="ready never rose within 4 cycles of valid"))], None
-    for _ in range(3):
-        if seen is not None: break
-        o = cur.step()
-        if o.update_received: seen = o
-    if seen is None:
-        return [("itp:no-update-strobe", dict(dw0=hex(dw0), counter=counter, delta=delta))], None
+    trace = [o]
+    first = 0 if o.update_received else None
+    while (first is None and len(trace) <= WAIT) or (first is not None and len(trace) <= first + TAIL):
+        trace.append(cur.step())
+        if first is None and trace[-1].update_received: first = len(trace) - 1
+    if first is None:
+        return [("itp:no-update-strobe", dict(dw0=hex(dw0), counter=counter, delta=delta, waited_cycles=WAIT))], None
+    rises = sum(1 for i, t in enumerate(trace) if t.update_received and (i == 0 or not trace[i - 1].update_received))
     wc, wd = WIDTHS
     fails = []
-    if seen.bus_interval_counter != counter:
-        fails.append(("itp:bus_interval_counter", dict(dw0=hex(dw0), packet_counter=counter, reported=seen.bus_interval_counter,
-                                                       packet_delta=delta, output_width=wc, field_width=14)))
-    if seen.delta != delta:
-        fails.append(("itp:delta", dict(dw0=hex(dw0), packet_delta=delta, reported=seen.delta, packet_counter=counter,
-                                        output_width=wd, field_width=13)))
+    if rises != 1:
+        fails.append(("itp:strobe-count", dict(dw0=hex(dw0), strobes=rises, update_received=[t.update_received for t in trace])))
+    cands = [trace[first], trace[first + 1]]
+    seen = next((t for t in cands if t.bus_interval_counter == counter and t.delta == delta), cands[0])
+    if seen.bus_interval_counter != counter and all(t.bus_interval_counter != counter for t in cands):
+        fails.append(("itp:bus_interval_counter", dict(dw0=hex(dw0), packet_counter=counter, reported=[t.bus_interval_counter for t in cands],
+                                                       packet_delta=delta, output_width=wc, field_width=14, strobe_latency=first)))
+    if seen.delta != delta and all(t.delta != delta for t in cands):
+        fails.append(("itp:delta", dict(dw0=hex(dw0), packet_delta=delta, reported=[t.delta for t in cands], packet_counter=counter,
+                                        output_width=wd, field_width=13, strobe_latency=first)))
+    if not fails and (seen.bus_interval_counter != counter or seen.delta != delta):
+        fails.append(("itp:fields-not-simultaneous", dict(dw0=hex(dw0), at_strobe=tuple(cands[0]), next_cycle=tuple(cands[1]))))
     return fails, seen
+
+
+def stream_check(cur, model, pkts):
+    """back-to-back ITPs (each offered the cycle after the previous one was taken): as many strobes as packets, and the
+    n-th strobe reports the n-th packet (in its own cycle or the following one).  Returns a failure or None."""
+    obs = []
+    for i, (c, d) in enumerate(pkts):
+        kw = dict(valid=1, dw0=ITP_TYPE | (c << 5) | (d << 19), **junk_inputs(model, i % 3))
+        for _ in range(4):
+            o = cur.step(**kw); obs.append(o)
+            if o.ready: break
+        else:
+            return ("itp:not-accepted", dict(packet_index=i, note="ready never rose within 4 cycles of valid"))
+    for _ in range(WAIT + 2): obs.append(cur.step())
+    strobes = [i for i, t in enumerate(obs) if t.update_received and (i == 0 or not obs[i - 1].update_received)]
+    level = [i for i, t in enumerate(obs) if t.update_received]
+    # back-to-back strobes may merge into one level: count strobe cycles when they are contiguous single-cycle pulses
+    n = len(level) if len(level) == len(pkts) else len(strobes)
+    idx = level if len(level) == len(pkts) else strobes
+    if n != len(pkts):
+        return ("itp:strobe-count", dict(packets=len(pkts), strobes=len(strobes), strobe_cycles=len(level)))
+    for k, (i, (c, d)) in enumerate(zip(idx, pkts)):
+        cands = obs[i:i + 2]
+        if not any(t.bus_interval_counter == c and t.delta == d for t in cands):
+            return ("itp:stream-order", dict(packet_index=k, packet=(c, d), reported=[(t.bus_interval_counter, t.delta) for t in cands]))
+    return None
 
 
 WIDTHS = (None, None)
@@ -108,14 +147,15 @@ def cone(model, run):
     data_bits = top_bits(model, d.inputs["dw0"], 5, 32)
     ffs = [regs.of_signal(d.observes[n]) for n in ("bus_interval_counter", "delta")]
     for n, ff in zip(("bus_interval_counter", "delta"), ffs):
-        info = affine_cone(model, list(model.comp.cells[ff].data), data_bits, {ff}, wiring_only=True)
+        info = affine_cone(model, list(model.comp.cells[ff].data), data_bits, {ff}, wiring_only=True, through_registers=True)
         ctl_allowed = top_bits(model, d.inputs["valid"]) | top_bits(model, d.inputs["dw0"], 0, 5)
         # reset input of the domain also counts as control
         extra = {b for b in info["control_support"] if b not in ctl_allowed and not _is_reset_bit(model, b)}
         if extra:
             raise ConeError(f"{n}: capture is steered by inputs other than valid / packet type (top bits {sorted(extra)})")
-    run.notes.append("netlist cone of bus_interval_counter and delta registers: wiring of DW0[31:5] only, captured under a "
-                     "condition on valid and DW0[4:0] only -> decided by zero / ones / single-bit packets; no other header field is read")
+    run.notes.append("netlist cone of bus_interval_counter and delta registers (through any pipeline registers): wiring of DW0[31:5] "
+                     "only, captured under conditions on valid and DW0[4:0] (and state derived from them) only -> decided by "
+                     "zero / ones / single-bit packets; no other header field is read")
 
 
 def _is_reset_bit(model, bit):
@@ -156,17 +196,22 @@ def build_layer():
 
 
 def layer_present(cur, model, counter, delta, junk):
-    """one ITP offered by the link layer; returns (failures, bus_interval seen 3 cycles after it was taken)"""
+    """one ITP offered by the link layer from a quiescent state; the layer has no strobe, so bus_interval may settle
+    any time within WAIT cycles after the header was taken and is read then.  Returns (failures, value read)."""
     dw0 = ITP_TYPE | (counter << 5) | (delta << 19)
     kw = dict(valid=1, dw0=dw0, **junk_inputs(model, junk))
     for _ in range(4):
         if cur.step(**kw).ready: break
     else:
         return [("itp-layer:not-accepted", dict(dw0=hex(dw0), note="header_source.ready never rose within 4 cycles of valid"))], None
-    for _ in range(3): o = cur.step()
+    left = WAIT
+    while left > 0:                                      # (hold stops at each change; run out the bound)
+        n, _first, _last = cur.hold(left)
+        left -= max(n, 1)
+    o = cur.step()
     if o.bus_interval != counter:
         return [("itp-layer:bus_interval", dict(dw0=hex(dw0), packet_counter=counter, bus_interval=o.bus_interval, packet_delta=delta,
-                                                output_width=LAYER_WIDTH[0], field_width=14))], o.bus_interval
+                                                output_width=LAYER_WIDTH[0], field_width=14, read_after_cycles=WAIT))], o.bus_interval
     return [], o.bus_interval
 
 
@@ -188,6 +233,7 @@ def layer_prefix(cur, model, pre):
         kw = dict(valid=1, dw0=ITP_TYPE | (0x3FFF << 5) | (0x1FFF << 19), **junk_inputs(model, 1))
         for _ in range(4):
             if cur.step(**kw).ready: break
+        for _ in range(WAIT + 2): cur.step()
 
 
 def run_layer(cfg, tier, seed):
@@ -224,8 +270,8 @@ def run_layer(cfg, tier, seed):
     return run.result(goals=["reported", "counter-msb"], depth=8,
                       assumptions=["USB3ProtocolLayer is elaborated with its link layer replaced by free ports of the same record types; "
                                    "ITPs are offered on link.header_source with valid held until ready, link.ready high, nothing else active",
-                                   "the layer has no timestamp strobe: bus_interval is read 3 cycles after the header was taken and must then "
-                                   "equal the packet's 14-bit bus interval counter"])
+                                   "the layer has no timestamp strobe: bus_interval may settle any time within 16 cycles after the header was taken; "
+                                   "it is read after that bound and must equal the packet's 14-bit bus interval counter"])
 
 
 def configs(tier):
@@ -236,6 +282,7 @@ def prefix(cur, model, pre):
     cur.step()
     if pre == "after-all-ones":
         present_raw(cur, model, 0x3FFF, 0x1FFF)
+        for _ in range(WAIT + 2): cur.step()        # let that packet's strobe pass: cases start from a quiescent state
 
 
 def present_raw(cur, model, counter, delta):
@@ -285,10 +332,15 @@ def run_config(cfg, tier, seed):
     log = []
     cur = Cursor(model, None, log)
     prefix(cur, model, cfg["pre"])
-    for i, (c, d) in enumerate(stream): present(cur, model, c, d, i % 3)
+    fail = stream_check(cur, model, stream)
+    run.evals += len(stream)
+    run.cover["back-to-back"] += 1
+    if fail: run.violation(fail[0], fail[1], [dict(pre=cfg["pre"], stream=[list(x) for x in stream])])
+    for i, (c, d) in enumerate(stream[:10]): present(cur, model, c, d, i % 3)
     run.validate(model, log)
     run.samples.append([dict(counter=c, delta=d) for c, d in stream[:4]])
     for v in list(run.viol.values())[:4]:
+        if "stream" in v["path"][0]: continue
         p = v["path"][0]
         log = []
         cur = Cursor(model, None, log)
@@ -297,10 +349,11 @@ def run_config(cfg, tier, seed):
         run.validate(model, log)
     if cone_err and not run.viol:
         raise MachineryError(f"cannot claim all 2^27 timestamp values: the decode is no longer provably wiring-only: {cone_err}")
-    return run.result(goals=["counter>1", "delta>1", "other-type"], depth=3,
+    return run.result(goals=["counter>1", "delta>1", "other-type", "back-to-back"], depth=WAIT + 6,
                       assumptions=["the header is presented on header_sink with valid held until ready (HeaderQueue handshake)",
-                                   "'reported' = value of bus_interval_counter / delta in the first cycle update_received is high, "
-                                   "which must come within 3 cycles after the header was taken (no exact latency demanded)",
+                                   "no latency is demanded: the update strobe may come in the cycle the header is taken or up to 16 cycles later; "
+                                   "'reported' = bus_interval_counter / delta in the strobe cycle or the cycle after it; exactly one strobe per ITP",
+                                   "enumerated cases start from a quiescent receiver; back-to-back ITPs are checked as a stream (n packets -> n strobes, in order)",
                                    "ITP layout per USB 3.2 8.7: type DW0[4:0]=01100b, bus interval counter DW0[18:5], delta DW0[31:19]"])
 
 
@@ -322,6 +375,10 @@ def replay(cfg, tier, payload):
     log = []
     cur = Cursor(model, None, log)
     prefix(cur, model, p["pre"])
+    if "stream" in p:
+        fail = stream_check(cur, model, [tuple(x) for x in p["stream"]])
+        n = pysim.replay(model, log)
+        return fail is None, (f"rule={fail[0]} detail={fail[1]}" if fail else "stream decoded in order") + f" [trace of {n} cycles reproduced identically in amaranth.sim]"
     fails, seen = present(cur, model, p["counter"], p["delta"], p["junk"])
     n = pysim.replay(model, log)
     msg = ("; ".join(f"rule={r} detail={d}" for r, d in fails) if fails else "packet decoded in full") + f" [trace of {n} cycles reproduced identically in amaranth.sim]"
